@@ -24,7 +24,8 @@
    Deliberate oddities of the code that are modelled as they are: Pipeline on a pod already on the
    node without updateIfExists is Unevict; unevict does not restore NodeName; allocateOperation keeps
    a clone of the task (commit / convert continue on the clone: virtual flag of the clone); a failed
-   Bind un-allocates, clears the log and abandons the remaining operations; callers of
+   Bind un-allocates and clears the log (whether the remaining operations are undone first or abandoned is the
+   constant BindFailUndoesRest, set from the source under check); callers of
    Allocate/Pipeline assign the pod's GPU groups before the call
    (gpu_sharing.AllocateFractionalGPUTaskToNode).
 
@@ -44,17 +45,20 @@
    C13_Discard - a prediction; the verdict comes from the real traces.
 
    Quantities: GPUs in milli-GPU (1 device = 1000), CPU in milli-cores, shared GPU memory in units
-   with one device = GpuMem units. All scenario data lives in the variable cfg (constant along a
+   with one device = cfg.nodes[n].gmem units (100 when the node has no gpu.memory label). All scenario data lives in the variable cfg (constant along a
    behaviour) so that trace validation can load scenarios from the trace.                       *)
 EXTENDS Integers, Sequences, FiniteSets, FiniteSetsExt, TLC, Json
 
 CONSTANTS Cfg,       \* scenario used for model checking: [nodes, queues, jobs, pods, groups]
           MaxOps,    \* forward operations are enabled while Len(ops) < MaxOps
           MaxFail,   \* injected Cache failures per behaviour
-          MaxStmts   \* statements per behaviour
+          MaxStmts,  \* statements per behaviour
+          BindFailUndoesRest   \* TRUE: Commit undoes the entries after a failed Bind (newest first) before it clears the
+                               \* log; FALSE (the code as first found): they are abandoned, their virtual effect stays
 
 VARIABLES cfg,       \* scenario
-          pod,       \* pod -> [st, node, groups, virt]      (the PodInfo held by the workload)
+          pod,       \* pod -> [st, node, groups, virt, acc] (the PodInfo held by the workload; acc = GPU quota of its
+                     \*         AcceptedResource, set whenever a node takes the pod: queues are charged with it)
           node,      \* node -> [ig, rg, ug, ic, rc, uc, um, rm, am, mark, pods]
           job,       \* job -> [ag, ac, naa, idx, psaa, psau, psal]
           queue,     \* queue -> [ag, anpg, ac, anpc]
@@ -73,7 +77,6 @@ VARIABLES cfg,       \* scenario
 vars == <<cfg, pod, node, job, queue, ops, emitted, plan, phase, ci, conv, nfail, nstmt, bad, saved, act, hist>>
 view == <<cfg, pod, node, job, queue, ops, emitted, plan, phase, ci, conv, nfail, nstmt, bad>>
 
-GpuMem == 100
 NoNode == ""
 NoPod  == [st |-> "none", groups |-> <<>>]
 
@@ -92,12 +95,18 @@ Groups == {cfg.groups[i] : i \in DOMAIN cfg.groups}
 SeqSet(s) == {s[i] : i \in DOMAIN s}
 
 PJ(p)     == cfg.pods[p].job
-Shared(p) == cfg.pods[p].kind = "frac"
-GQ(p)     == cfg.pods[p].gq                        \* GPU quota (ResReq / AcceptedResource), milli-GPU
+\* kinds: "whole" (gpu devices), "frac" (gpu-fraction: portion gq of a device), "mem" (gpu-memory: mem units)
+Shared(p) == cfg.pods[p].kind \in {"frac", "mem"}
+GQ(p)     == cfg.pods[p].gq                        \* GPUs of the request (ResReq.GPUs(): 0 for a gpu-memory request), milli-GPU
 RG(p)     == IF Shared(p) THEN 0 ELSE cfg.pods[p].gq   \* GPUs tracked in Idle/Used/Releasing (shared GPUs excluded)
 RC(p)     == cfg.pods[p].cpu
-Mem(p)    == cfg.pods[p].mem
 NG(n)     == cfg.nodes[n].gpu
+GMem(n)   == cfg.nodes[n].gmem                     \* memory units of one device of node n (MemoryOfEveryGpuOnNode)
+\* GetResourceGpuMemory(ResReq) on node n
+MemOn(p, n) == IF cfg.pods[p].kind = "mem" THEN cfg.pods[p].mem ELSE (cfg.pods[p].gq * GMem(n)) \div 1000
+\* GPU quota of the AcceptedResource node n gives the pod (setAcceptedResources): a gpu-memory request becomes the
+\* portion of n's device memory, rounded up to 1/100 (getGpuMemoryFractionalOnNode)
+AccQ(p, n) == IF cfg.pods[p].kind = "mem" THEN 10 * ((cfg.pods[p].mem * 100 + GMem(n) - 1) \div GMem(n)) ELSE cfg.pods[p].gq
 JobPods(j) == {p \in Pods : PJ(p) = j}
 NP(j)     == cfg.jobs[j].np = 1
 
@@ -160,14 +169,14 @@ AddTaskRes(n, nd, p, st, gs) ==
       nd2 == CASE st = "Releasing" -> [nd1 EXCEPT !.rg = @ + RG(p), !.rc = @ + RC(p), !.ig = @ - RG(p), !.ic = @ - RC(p)]
                [] st = "Pipelined" -> [nd1 EXCEPT !.rg = @ - RG(p), !.rc = @ - RC(p)]
                [] OTHER            -> [nd1 EXCEPT !.ig = @ - RG(p), !.ic = @ - RC(p)]
-  IN IF Shared(p) THEN AddSharedAll(n, nd2, Mem(p), st, gs) ELSE nd2
+  IN IF Shared(p) THEN AddSharedAll(n, nd2, MemOn(p, n), st, gs) ELSE nd2
 
 RemoveTaskRes(n, nd, p, st, gs) ==
   LET nd1 == [nd EXCEPT !.ug = @ - RG(p), !.uc = @ - RC(p)]
       nd2 == CASE st = "Releasing" -> [nd1 EXCEPT !.rg = @ - RG(p), !.rc = @ - RC(p), !.ig = @ + RG(p), !.ic = @ + RC(p)]
                [] st = "Pipelined" -> [nd1 EXCEPT !.rg = @ + RG(p), !.rc = @ + RC(p)]
                [] OTHER            -> [nd1 EXCEPT !.ig = @ + RG(p), !.ic = @ + RC(p)]
-  IN IF Shared(p) THEN RemoveSharedAll(n, nd2, Mem(p), st, gs) ELSE nd2
+  IN IF Shared(p) THEN RemoveSharedAll(n, nd2, MemOn(p, n), st, gs) ELSE nd2
 
 OnNode(nd, p) == nd.pods[p].st # "none"
 \* AddTask: error (no change) if the task is already on the node
@@ -201,13 +210,14 @@ JobUpdate(jb, p, old, new) ==
 (***************************************************************************)
 (* Queue usage (proportion allocateHandlerFn / deallocateHandlerFn)        *)
 (***************************************************************************)
-QueueApply(qs, p, sign) ==
+\* amt = GPU quota of the task's AcceptedResource at the time the handler fires
+QueueApply(qs, p, sign, amt) ==
   LET ch == Chain(cfg.jobs[PJ(p)].queue)
       np == NP(PJ(p))
   IN [q \in Queues |->
         IF q \in ch
-        THEN [ag   |-> qs[q].ag + sign * GQ(p),   ac   |-> qs[q].ac + sign * RC(p),
-              anpg |-> qs[q].anpg + sign * B(np) * GQ(p), anpc |-> qs[q].anpc + sign * B(np) * RC(p)]
+        THEN [ag   |-> qs[q].ag + sign * amt,   ac   |-> qs[q].ac + sign * RC(p),
+              anpg |-> qs[q].anpg + sign * B(np) * amt, anpc |-> qs[q].anpc + sign * B(np) * RC(p)]
         ELSE qs[q]]
 
 (***************************************************************************)
@@ -226,8 +236,8 @@ TruthJob(pd, j) ==
 \* (active-allocated statuses); Releasing pods have been given back, Pending ones are only requested
 QPods(pd, q, onlyNP) == {p \in Pods : q \in Chain(cfg.jobs[PJ(p)].queue) /\ ActiveAllocated(pd[p].st) /\ (onlyNP => NP(PJ(p)))}
 TruthQueue(pd, q) ==
-  [ag   |-> Sum(QPods(pd, q, FALSE), LAMBDA p : GQ(p)), ac   |-> Sum(QPods(pd, q, FALSE), LAMBDA p : RC(p)),
-   anpg |-> Sum(QPods(pd, q, TRUE), LAMBDA p : GQ(p)),  anpc |-> Sum(QPods(pd, q, TRUE), LAMBDA p : RC(p))]
+  [ag   |-> Sum(QPods(pd, q, FALSE), LAMBDA p : pd[p].acc), ac   |-> Sum(QPods(pd, q, FALSE), LAMBDA p : RC(p)),
+   anpg |-> Sum(QPods(pd, q, TRUE), LAMBDA p : pd[p].acc),  anpc |-> Sum(QPods(pd, q, TRUE), LAMBDA p : RC(p))]
 
 JobCounters(jb) == [ag |-> jb.ag, ac |-> jb.ac, naa |-> jb.naa, idx |-> jb.idx, psaa |-> jb.psaa, psau |-> jb.psau, psal |-> jb.psal]
 QueueCounters(q) == [ag |-> q.ag, ac |-> q.ac, anpg |-> q.anpg, anpc |-> q.anpc]
@@ -241,7 +251,9 @@ QueueOK(pd, qs) == \A q \in Queues : QueueCounters(qs[q]) = TruthQueue(pd, q)
 (* assigns them before Allocate / Pipeline; un-allocating does not and need *)
 (* not reset them): normalised.                                            *)
 (***************************************************************************)
-NormPod(r) == [st |-> r.st, node |-> r.node, groups |-> IF r.st = "Pending" THEN <<>> ELSE r.groups, virt |-> r.virt]
+\* (the accepted quota only means something while the pod holds or is nominated to resources)
+NormPod(r) == [st |-> r.st, node |-> r.node, groups |-> IF r.st = "Pending" THEN <<>> ELSE r.groups, virt |-> r.virt,
+               acc |-> IF ActiveAllocated(r.st) THEN r.acc ELSE 0]
 ProjOf(pd, nds, jbs, qs) ==
   [pods |-> [p \in Pods |-> NormPod(pd[p])], nodes |-> nds,
    jobs |-> [j \in Jobs |-> JobCounters(jbs[j])], queues |-> [q \in Queues |-> QueueCounters(qs[q])]]
@@ -252,8 +264,8 @@ ProjOf(pd, nds, jbs, qs) ==
 OpRec(k, p, ps, pn, pg, pv, nn, tgt, mv) == [k |-> k, p |-> p, ps |-> ps, pn |-> pn, pg |-> pg, pv |-> pv, nn |-> nn, tgt |-> tgt, mv |-> mv]
 UndoRec(i) == OpRec("undo", "", "", "", <<>>, FALSE, "", i, FALSE)
 
-FireAlloc(S, p)   == [S EXCEPT !.queue = QueueApply(@, p, 1)]
-FireDealloc(S, p) == [S EXCEPT !.queue = QueueApply(@, p, -1)]
+FireAlloc(S, p)   == [S EXCEPT !.queue = QueueApply(@, p, 1, S.pod[p].acc)]
+FireDealloc(S, p) == [S EXCEPT !.queue = QueueApply(@, p, -1, S.pod[p].acc)]
 
 \* operationValid(i): the FIRST undo that targets i decides, recursively
 RECURSIVE OpValid(_, _)
@@ -271,7 +283,7 @@ EvictOp(S, p) ==
   LET pr == S.pod[p]
       n  == pr.node
       S1 == [S EXCEPT !.job[PJ(p)] = JobUpdate(@, p, pr.st, "Releasing"),
-                      !.pod[p].st = "Releasing",
+                      !.pod[p].st = "Releasing", !.pod[p].acc = AccQ(p, n),
                       !.node[n] = NodeUpdate(n, @, p, "Releasing", pr.groups)]
       S2 == FireDealloc(S1, p)
   IN [S2 EXCEPT !.ops = Append(@, OpRec("evict", p, pr.st, n, pr.groups, pr.virt, "", 0, FALSE)),
@@ -279,15 +291,15 @@ EvictOp(S, p) ==
 
 UnevictFn(S, p, ps, n, pg, pv) ==
   LET S1 == [S EXCEPT !.job[PJ(p)] = JobUpdate(@, p, S.pod[p].st, ps),
-                      !.pod[p] = [st |-> ps, node |-> @.node, groups |-> pg, virt |-> pv]]
+                      !.pod[p] = [st |-> ps, node |-> @.node, groups |-> pg, virt |-> pv, acc |-> AccQ(p, n)]]
       S2 == [S1 EXCEPT !.node[n] = IF OnNode(@, p) THEN NodeUpdate(n, @, p, ps, pg) ELSE NodeAdd(n, @, p, ps, pg)]
-  IN FireAlloc(S2, p)
+  IN FireAlloc(S2, p)          \* the node takes the pod (AcceptedResource recomputed) BEFORE the handlers fire
 
 \* mv: Pipeline had moved the pod to another GPU of the node (NodeConsolidate): its entry is put back
 UnpipelineFn(S, p, pn, ps, pg, pv, mv) ==
   LET host == S.pod[p].node
       S1 == [S EXCEPT !.job[PJ(p)] = JobUpdate(@, p, S.pod[p].st, ps),
-                      !.pod[p] = [st |-> ps, node |-> pn, groups |-> pg, virt |-> pv]]
+                      !.pod[p] = [st |-> ps, node |-> pn, groups |-> pg, virt |-> pv, acc |-> @.acc]]
       S2 == [S1 EXCEPT !.node[host] = IF mv THEN [NodeRemove(host, @, p) EXCEPT !.pods[p] = [st |-> ps, groups |-> pg]]
                                       ELSE NodeRemove(host, @, p)]
       \* a pod that is still on its previous node has the GPU groups that node holds for it (the recorded
@@ -320,6 +332,14 @@ UndoAt(S, i) ==
 EvictIdx(os, p) == {i \in 1..Len(os) : os[i].k = "evict" /\ os[i].p = p /\ OpValid(os, i)}
 UnevictEarliest(S, p) == IF EvictIdx(S.ops, p) = {} THEN S ELSE UndoAt(S, MinOf(EvictIdx(S.ops, p)))
 
+\* Unevict / Pipeline return an error (and change nothing but the task's groups) when the pod is on the node and
+\* there is no valid evict entry of it in THIS statement (e.g. its eviction was abandoned by a failed Commit)
+PipeMv(S, p, n, gs) ==
+  LET g == IF Shared(p) THEN gs ELSE S.pod[p].groups
+  IN OnNode(S.node[n], p) /\ Len(g) > 0 /\ Shared(p) /\ g # <<"-1">> /\ g # S.node[n].pods[p].groups
+PipelineFails(S, p, n, upd, gs) == OnNode(S.node[n], p) /\ ~upd /\ ~PipeMv(S, p, n, gs) /\ EvictIdx(S.ops, p) = {}
+UnevictFails(S, p) == EvictIdx(S.ops, p) = {}
+
 \* gs: the GPU groups the caller assigned to the task before the call (shared pods only)
 PipelineOp(S, p, n, upd, gs) ==
   LET pr0 == S.pod[p]
@@ -330,7 +350,7 @@ PipelineOp(S, p, n, upd, gs) ==
      THEN UnevictEarliest([S EXCEPT !.pod[p].groups = S.node[n].pods[p].groups], p)
      ELSE LET prevG == IF mv THEN S.node[n].pods[p].groups ELSE pr.groups
               S1 == [S EXCEPT !.job[PJ(p)] = JobUpdate(@, p, pr.st, "Pipelined"),
-                              !.pod[p] = [st |-> "Pipelined", node |-> n, groups |-> pr.groups, virt |-> pr.virt]]
+                              !.pod[p] = [st |-> "Pipelined", node |-> n, groups |-> pr.groups, virt |-> pr.virt, acc |-> AccQ(p, n)]]
               S2 == [S1 EXCEPT !.node[n] = IF mv THEN NodeConsolidate(n, @, p, "Pipelined", pr.groups)
                                             ELSE IF on THEN NodeUpdate(n, @, p, "Pipelined", pr.groups)
                                             ELSE NodeAdd(n, @, p, "Pipelined", pr.groups)]
@@ -342,7 +362,7 @@ AllocateOp(S, p, n, gs) ==
   LET pr0 == S.pod[p]
       pr  == IF Shared(p) THEN [pr0 EXCEPT !.groups = gs] ELSE pr0
       S1 == [S EXCEPT !.job[PJ(p)] = JobUpdate(@, p, pr.st, "Allocated"),
-                      !.pod[p] = [st |-> "Allocated", node |-> n, groups |-> pr.groups, virt |-> pr.virt]]
+                      !.pod[p] = [st |-> "Allocated", node |-> n, groups |-> pr.groups, virt |-> pr.virt, acc |-> AccQ(p, n)]]
       S2 == [S1 EXCEPT !.node[n] = NodeAdd(n, @, p, "Allocated", pr.groups)]
       S3 == FireAlloc(S2, p)
       \* the log keeps a CLONE of the task: groups (pg) and virtual flag (pv) as of now
@@ -379,6 +399,12 @@ UndoTaskDown(S, p, j, lo) ==
   IF j < lo THEN S
   ELSE UndoTaskDown(IF S.ops[j].k # "undo" /\ S.ops[j].p = p THEN UndoAt(S, j) ELSE S, p, j - 1, lo)
 
+\* undoOperationsFrom(lo): every still valid non-undo entry at or after lo, newest first
+RECURSIVE UndoRestDown(_, _, _)
+UndoRestDown(S, j, lo) ==
+  IF j < lo THEN S
+  ELSE UndoRestDown(IF S.ops[j].k # "undo" THEN UndoAt(S, j) ELSE S, j - 1, lo)
+
 \* Commit, one valid log entry at a time. NextValid = first valid index >= ci, 0 if none.
 \* (undo entries match no case of the switch in Commit)
 NextValid(os, c) ==
@@ -398,11 +424,11 @@ CommitOne(S, i, ok) ==
        [] op.k = "allocate" ->
             \* commitAllocate works on the CLONE kept in the log: NodeName = nn, groups = pg, virtual = pv
             IF ok THEN [S |-> [S EXCEPT !.job[PJ(p)] = JobUpdate(@, p, S.pod[p].st, "Binding"),
-                                         !.pod[p] = [st |-> "Binding", node |-> op.nn, groups |-> op.pg, virt |-> op.pv]],
+                                         !.pod[p] = [st |-> "Binding", node |-> op.nn, groups |-> op.pg, virt |-> op.pv, acc |-> @.acc]],
                         stop |-> FALSE]
-            ELSE [S |-> [UnallocateFn([S EXCEPT !.pod[p] = [st |-> @.st, node |-> op.nn, groups |-> op.pg, virt |-> op.pv]], p, FALSE)
-                           EXCEPT !.ops = <<>>],
-                  stop |-> TRUE]
+            ELSE LET S1 == UnallocateFn([S EXCEPT !.pod[p] = [st |-> @.st, node |-> op.nn, groups |-> op.pg, virt |-> op.pv, acc |-> @.acc]], p, FALSE)
+                     S2 == IF BindFailUndoesRest THEN UndoRestDown(S1, Len(S1.ops), i + 1) ELSE S1
+                 IN [S |-> [S2 EXCEPT !.ops = <<>>], stop |-> TRUE]
        [] OTHER -> [S |-> S, stop |-> FALSE]
 
 (***************************************************************************)
@@ -421,7 +447,8 @@ FoldInit(n, nd, ps) ==
   ELSE LET p == CHOOSE x \in ps : \A y \in ps : cfg.pods[x].ord <= cfg.pods[y].ord
        IN FoldInit(n, NodeAdd(n, nd, p, cfg.pods[p].st, cfg.pods[p].groups), ps \ {p})
 
-InitPod == [p \in Pods |-> [st |-> cfg.pods[p].st, node |-> cfg.pods[p].node, groups |-> cfg.pods[p].groups, virt |-> FALSE]]
+InitPod == [p \in Pods |-> [st |-> cfg.pods[p].st, node |-> cfg.pods[p].node, groups |-> cfg.pods[p].groups, virt |-> FALSE,
+                             acc |-> IF ActiveUsed(cfg.pods[p].st) THEN AccQ(p, cfg.pods[p].node) ELSE 0]]
 
 Init ==
   /\ cfg = Cfg
@@ -454,8 +481,8 @@ FreshGroups == {g \in Groups :
                   /\ \A i \in 1..Len(ops) : g \notin SeqSet(ops[i].pg)}
 GIdx(g) == CHOOSE i \in DOMAIN cfg.groups : cfg.groups[i] = g
 FreshSet == IF FreshGroups = {} THEN {} ELSE {CHOOSE g \in FreshGroups : \A h \in FreshGroups : GIdx(g) <= GIdx(h)}   \* one canonical fresh id
-GroupFitsAlloc(n, g, p) == node[n].um[g] > 0 /\ node[n].am[g] # node[n].rm[g] /\ GpuMem - node[n].am[g] - Mem(p) >= 0
-GroupFitsPipe(n, g, p)  == node[n].um[g] > 0 /\ node[n].am[g] # node[n].rm[g] /\ GpuMem - node[n].am[g] + node[n].rm[g] - Mem(p) >= 0
+GroupFitsAlloc(n, g, p) == node[n].um[g] > 0 /\ node[n].am[g] # node[n].rm[g] /\ GMem(n) - node[n].am[g] - MemOn(p, n) >= 0
+GroupFitsPipe(n, g, p)  == node[n].um[g] > 0 /\ node[n].am[g] # node[n].rm[g] /\ GMem(n) - node[n].am[g] + node[n].rm[g] - MemOn(p, n) >= 0
 AllocChoices(p, n) ==
   IF ~Shared(p) THEN IF node[n].ig >= RG(p) /\ node[n].ic >= RC(p) THEN {<<>>} ELSE {}
   ELSE IF node[n].ic < RC(p) THEN {}
